@@ -15,6 +15,10 @@ CONFIG = dict(
             dict(name="value-model", code=1903, kind="eq"),
             dict(name="value-spec", code=1904, kind="holds", predicate=True),
         ]),
+        dict(suffix="-m", comparisons=[
+            dict(name="mean-model", code=1905, kind="eq"),
+            dict(name="mean-spec", code=1906, kind="holds", predicate=True),
+        ]),
     ],
     trusted_base=COMMON_TB + [
         "tools/gen_units.py: the translator from metrique-writer-core/src/unit.rs to coq/theories/C19/UnitsGen.v (fails closed)",
@@ -25,6 +29,7 @@ CONFIG = dict(
         "rustc evaluates `(x as f64)/(y as f64)` in a const context as one IEEE-754 round-to-nearest-even division (checked bit-for-bit for every pair on every run)",
         "NaN payloads are not compared (every NaN is canonicalised on both sides)",
         "values wrapped in WithUnit are MetricValues (Rust's type system; strings reach the wrapper only through a value that writes one)",
+        "Mean: the u64 occurrence counter does not overflow (the generator keeps sums far below 2^64); try_extend is record_value in a loop that stops at the first error",
     ],
     explanation="Translator + theorems: the unit tables are re-extracted from unit.rs on every run and the ratio laws (ratio = quotient of the documented "
                 "unit sizes, inverse, composition, correctly rounded binary64 constant, names, quantity preservation, error cases) are re-proved over them. "
